@@ -157,5 +157,63 @@ def run(check):
             if len(check.samples) < 3:
                 check.sample({"lang": lang, "multi_file": multi, "files": [f["rel"] for f in files], "orders_tried": len(envs),
                               "distinct_outputs": len(seen)})
+    if not check.violations:
+        import_mix_part(check)
     check.assumptions += ["a schedule is abstracted to an arrival order of per-file results plus hash iteration orders; real races inside ignore/crossbeam are realised only through the collector hook and repeated runs",
                           "the walker delivers every visible *.rs file exactly once (ignore crate, external)"]
+
+
+def import_mix_part(check):
+    """multi-file mode with imports: a consumer crate refers to several types of one provider crate through a mix of
+    `use provider::T`, grouped use, glob, and a re-exporting facade crate (resolved by the fallback).  import_types is a
+    HashSet and all_types a HashMap: every process has fresh hash seeds, so repeated runs realise different iteration
+    orders; all outputs must be byte-identical (TypeScript and Kotlin print the import clause)."""
+    rng = check.rng
+    nws = 12 if check.thorough else 4
+    reps = 16 if check.thorough else 10
+    pool = TYPE_WORDS + [w + "Two" for w in TYPE_WORDS]
+    for w in range(nws):
+        lang = ["typescript", "kotlin"][w % 2]
+        words = rng.sample(pool, 7)
+        prov, fac, app = words[:4], words[4:5], words[5:7]
+        g = Gen(rng, p_serialized_as=0.0, p_decorators=0.0, p_cfg=0.0, p_const=0.0, p_mod=0.0, p_noise=0.0, p_rename=0.0, p_generic=0.0)
+        used = rng.sample(prov, rng.randint(2, 4))
+        fprov = g.file(names=prov)
+        ffac = g.file(names=fac)
+        # the consumer refers to every used type from a field, so that every import survives reconcile_referenced_types
+        wrap = lambda t, k: [t_path(t), t_path("Vec", [t_path(t)]), t_path("Option", [t_path(t)])][k % 3]
+        fapp = {"attrs": [], "items": [{"kind": "struct", "attrs": [m_path("typeshare")], "ident": app[0], "generics": [],
+                                        "fields": ("named", [field([], "f%d" % k, wrap(t, k)) for k, t in enumerate(used)])}]}
+        styles = {}
+        for t in used:
+            st = rng.choice(["use", "use", "group", "facade", "facade", "glob"])
+            styles[t] = st
+            if st == "use":
+                fapp["items"].insert(0, {"kind": "use", "tree": ("upath", "shapes", ("uname", t))})
+            elif st == "group":
+                fapp["items"].insert(0, {"kind": "use", "tree": ("upath", "shapes", ("ugroup", [("uname", t), ("upath", "sub", ("uname", "Unrelated"))]))})
+            elif st == "facade":
+                fapp["items"].insert(0, {"kind": "use", "tree": ("upath", "facade", ("uname", t))})
+            else:
+                fapp["items"].insert(0, {"kind": "use", "tree": ("upath", "shapes", ("uglob",))})
+        files = [dict(rel="shapes/src/lib.rs", crate="shapes", file=fprov), dict(rel="facade/src/lib.rs", crate="facade", file=ffac),
+                 dict(rel="app/src/lib.rs", crate="app", file=fapp)]
+        with Scratch() as sc:
+            for f in files:
+                sc.write("ws/" + f["rel"], render_file(f["file"]))
+            seen = {}
+            for k in range(reps):
+                env = {"TYPESHARE_VERIF_ORDER": "rev"} if k == reps - 1 else {}
+                r, outs = run_once(sc, lang, True, env)
+                check.saw(("import-mix", w, k), nontrivial=True)
+                check.count("import-mix-%s" % lang)
+                seen.setdefault(digest(outs) + "|%s" % r["rc"], (k, outs))
+        check.count("import-mix styles " + "+".join(sorted(set(styles.values()))))
+        if len(seen) > 1:
+            (k1, o1), (k2, o2) = list(seen.values())[:2]
+            diff = next(fn for fn in sorted(set(o1) | set(o2)) if o1.get(fn) != o2.get(fn))
+            check.violation("%s multi-file output differs between two runs of the same binary over the same three crates (process %d vs %d, "
+                            "file %s: %s)" % (lang, k1, k2, diff, l2.text_diff(o1.get(diff, ""), o2.get(diff, ""))),
+                            case={"lang": lang, "files": {f["rel"]: render_file(f["file"]) for f in files}, "styles": styles},
+                            impl={"a": o1, "b": o2}, failing_input=True)
+            return
